@@ -79,6 +79,11 @@ func translateLoopFuncsNS(p *pkg, ns string, names ...string) string {
 			set.registerAbstract(n, fs)
 			continue
 		}
+		if txt, ok := set.ifaceDispatch(n); ok { // stage 11 (loops_iface.go): "I.m", the dispatch of an interface method
+			fns = append(fns, txt)
+			set.done[n] = true
+			continue
+		}
 		fns = append(fns, set.translate(n))
 		set.done[n] = true
 	}
@@ -107,6 +112,7 @@ func (s *loopSet) translate(name string) string {
 	}
 	t.setupRecursion(leanName)
 	t.setupRecv()
+	t.ifaceCheckBody() // stage 11 (loops_iface.go)
 	ast.Inspect(fd.Body, func(n ast.Node) bool {
 		if _, ok := n.(*ast.FuncLit); ok {
 			t.fail(n, "closures are not supported")
@@ -213,6 +219,7 @@ func (s *loopSet) translate(name string) string {
 		t.params[o] = true
 		params = append(params, fmt.Sprintf("(%s : %s)", t.vars[o], t.kindOf(o.Type(), id).lean()))
 	}
+	params = append(params, t.ifaceAnonRecv()...) // stage 11 (loops_iface.go): an unnamed value receiver
 	for _, f := range fd.Type.Params.List {
 		if len(f.Names) == 0 {
 			t.fail(f, "unnamed parameter")
@@ -322,9 +329,10 @@ func (s *loopSet) translate(name string) string {
 			doc += "; the fields it assigns (" + strings.Join(ns, ", ") + ") are returned after the declared results: their value on return"
 		}
 	}
-	if t.recvParam != nil {
+	if t.recvParam != nil && t.sliceRecv() != nil {
 		doc += "; the receiver `" + t.recvParam.Name + "` (a value of a named slice type) is the first parameter"
 	}
+	doc += t.ifaceDoc() // stage 11 (loops_iface.go)
 	for _, o := range t.arrParams {
 		n, _ := arrayLen(o.Type())
 		doc += fmt.Sprintf("; ASSUMPTION (not checked here): the array parameter `%s` (a %s passed by value, read-only here) is a list of length %d", t.vars[o], o.Type(), n)
@@ -553,6 +561,10 @@ func (t *loopTr) block(list []ast.Stmt, ind string, m blockMode, k func(ind stri
 		var vals []string
 		retSlices := map[types.Object]bool{}
 		for i, r := range s.Results {
+			if v, ok := t.ifaceRetValue(r, i); ok { // stage 11 (loops_iface.go): a result of a closed interface type
+				vals = append(vals, v)
+				continue
+			}
 			if id, ok := unparen(r).(*ast.Ident); ok && t.rets[i].isSlice() {
 				if o := t.info.Uses[id]; o != nil {
 					if retSlices[o] {
@@ -800,6 +812,9 @@ func (t *loopTr) simple(st ast.Stmt) []binding {
 					val = fmt.Sprintf("(List.replicate %d 0#%d)", n, k.elem().width())
 				default:
 					val = "([] : " + k.lean() + ")"
+					if z, ok := t.ifaceZero(k, t.objOf(id).Type()); ok { // stage 11 (loops_iface.go)
+						val = z
+					}
 				}
 				bs = append(bs, bind(name, k, val)...)
 			}
